@@ -1,3 +1,4 @@
+use std::collections::HashMap;
 use std::fs;
 
 use async_lsp::lsp_types::Url;
@@ -8,6 +9,8 @@ use ide::file_system::{FileId, FilePath, FileSet, FileSystem};
 pub struct Vfs {
     file_set: FileSet,
     next_file_id: u32,
+    /// text of the documents that are open in the editor: it takes precedence over the disk
+    open_documents: HashMap<FilePath, String>,
 }
 
 impl Vfs {
@@ -17,6 +20,14 @@ impl Vfs {
 
     pub fn file_for_path(&self, path: &FilePath) -> Option<FileId> {
         self.file_set.file_for_path(path)
+    }
+
+    pub fn set_open_document(&mut self, path: FilePath, text: String) {
+        self.open_documents.insert(path, text);
+    }
+
+    pub fn remove_open_document(&mut self, path: &FilePath) {
+        self.open_documents.remove(path);
     }
 
     fn alloc_file_id(&mut self) -> FileId {
@@ -44,6 +55,10 @@ impl FileSystem for Vfs {
     }
 
     fn read_content(&self, file_path: &FilePath) -> Option<String> {
+        if let Some(content) = self.open_documents.get(file_path) {
+            return Some(content.clone());
+        }
+
         let Ok(content) = fs::read_to_string(&file_path.0) else {
             tracing::info!("failed to read file: file_path={file_path:?}");
             return None;
